@@ -33,7 +33,7 @@ ASSUMPTIONS = [
 TIMEOUT = {"quick": 400, "thorough": 2400}
 REQUIRED = {"fold:direct_calls": 2000, "fold:multi_wrap": 500, "fold:from_samplers": 2000, "posterior_points_checked": 20000,
             "gradient_points_checked": 2000, "limit_programs": 30, "limit_ops:set_non_negative_off_after_boundaries": 3,
-            "limit_ops:reload": 8, "start_validation_checks": 20, "momentum_sign_checks": 1000}
+            "limit_ops:reload": 8, "start_validation_checks": 20, "momentum_sign_checks": 1000, "trajectory:with_folds": 300}
 
 
 def jobs(tier, seed):
@@ -154,6 +154,74 @@ class LimitWatcher:
         return self.fn(t)
 
 
+class TrajectoryMonitor:
+    """Post-condition on HamiltonianChain.bounded_leapfrog.  While the trajectory runs, the gradient callable of the chain is
+    wrapped so that every position the integrator visits (and the gradient it obtained there) is recorded.  Afterwards the
+    harness carries the momentum along those observed positions with its own fold: from each observed position the next raw
+    position is predicted, folded, and must be the next observed position; a momentum component is flipped exactly when its
+    coordinate was folded an odd number of times in that step; the momentum handed back must be the one so obtained.
+    Re-synchronising on the observed positions keeps the comparison free of the chaotic error growth of long trajectories.
+    Steps that touch a wall image within 1e-7 widths are ambiguous in floating point: the trajectory is skipped (counted)."""
+
+    def __init__(self, rec):
+        self.rec = rec
+        self.pending = {}
+        self.ctx = {}
+
+    def pre(self, ch, t, r, n_steps):
+        inner = ch.grad
+        visited = []
+
+        def recording_grad(x, inner=inner, visited=visited):
+            g = inner(x)
+            visited.append((np.array(x, float), np.array(g, float)))
+            return g
+
+        self.pending[id(ch)] = (np.array(t, float), np.array(r, float), int(n_steps), float(ch.ES.epsilon), inner, visited)
+        ch.grad = recording_grad
+
+    def post(self, result, ch, t, r, n_steps):
+        if id(ch) not in self.pending:
+            return
+        t0, r0, n, eps, inner, visited = self.pending.pop(id(ch))
+        ch.grad = inner
+        if len(visited) != n + 1 or not np.array_equal(visited[0][0], t0):
+            self.rec.count("trajectory:skipped_unexpected_gradient_calls")
+            return
+        lo, hi = np.asarray(ch.bounds.lower, float), np.asarray(ch.bounds.upper, float)
+        w = hi - lo
+        rs = ch.inv_temp * eps
+        rr = r0 + 0.5 * rs * visited[0][1]
+        bounced = 0
+        for k in range(1, n + 1):
+            raw = visited[k - 1][0] + eps * np.asarray(ch.mass.get_velocity(rr), float)
+            d = raw - lo
+            q = np.floor(d / w)
+            rem = d - q * w
+            if np.any(np.minimum(rem, w - rem) < 1e-7 * w) or not np.all(np.isfinite(raw)):
+                self.rec.count("trajectory:skipped_ambiguous")
+                return
+            odd = (q % 2) != 0
+            img = np.where(odd, hi - rem, lo + rem)
+            bounced += int(np.count_nonzero(q != 0))
+            tol = 1e-7 * w + 64 * np.spacing(np.abs(raw))
+            if not self.rec.check(bool(np.all(np.abs(img - visited[k][0]) <= tol)), "trajectory-position",
+                                  lambda: f"bounded trajectory, step {k} of {n}: from {visited[k - 1][0]} with momentum {rr} the integrator went to {visited[k][0]}; "
+                                          f"the folded image of the raw position {raw} is {img}", {**self.ctx, "t0": t0, "r0": r0, "n_steps": n, "epsilon": eps}):
+                return
+            rr = np.where(odd, -rr, rr) + (rs if k < n else 0.5 * rs) * visited[k][1]
+        self.rec.count("trajectory:reintegrated")
+        if bounced:
+            self.rec.count("trajectory:with_folds")
+        t_lib, r_lib = np.asarray(result[0], float), np.asarray(result[1], float)
+        scale_r = np.abs(rr) + np.abs(r0).max() + rs * max(np.abs(g).max() for _, g in visited) + 1e-300
+        ok = bool(np.array_equal(t_lib, visited[n][0]) and np.all(np.abs(r_lib - rr) <= 1e-9 * scale_r))
+        self.rec.check(ok, "trajectory-momentum-parity",
+                       lambda: f"bounded trajectory of {n} steps ({bounced} folded coordinates): the library hands back position {t_lib} with momentum {r_lib}; carrying the momentum along "
+                               f"the observed positions with a flip for every odd fold count gives {rr} (last observed position {visited[n][0]})",
+                       {**self.ctx, "t0": t0, "r0": r0, "n_steps": n, "epsilon": eps})
+
+
 def random_box(rng, d):
     mag = 10.0 ** rng.uniform(-6, 6, size=d)
     lo = rng.choice([-1.0, 1.0, 0.0], size=d, p=[0.45, 0.45, 0.1]) * mag
@@ -176,6 +244,8 @@ def run_job(job, rec):
     fm = FoldMonitor(rec)
     attach(Bounds, "reflect", post=lambda out, self, theta: fm.judge(self, theta, out))
     attach(Bounds, "reflect_momenta", post=lambda out, self, theta: fm.judge(self, theta, out[0], out[1]))
+    tm = TrajectoryMonitor(rec)
+    attach(HamiltonianChain, "bounded_leapfrog", pre=tm.pre, post=tm.post)
 
     # ------------------------------------------------ direct calls of the fold map
     for c in range(job["n_direct"]):
@@ -253,8 +323,20 @@ def run_job(job, rec):
         for step in range(int(rng.integers(4, 11))):
             i = int(rng.integers(d))
             cur = float(ch.get_last()[i])
-            op = str(rng.choice(["set_boundaries", "set_boundaries", "remove", "nonneg_on", "nonneg_off", "reload"]))
-            if op == "set_boundaries":
+            op = str(rng.choice(["set_boundaries", "set_boundaries", "remove", "nonneg_on", "nonneg_off", "reload", "refused"]))
+            if op == "refused":
+                # requests the library refuses with a warning (lower >= upper, a non-boolean switch) must leave the limits in force untouched
+                import warnings
+
+                with warnings.catch_warnings():
+                    warnings.simplefilter("ignore")
+                    if rng.random() < 0.7:
+                        wdt = scale * 10.0 ** rng.uniform(-2, 1)
+                        a_ = cur + wdt * rng.uniform(-1, 1)
+                        r = guarded(ch.set_boundaries, i, (a_ + (wdt if rng.random() < 0.7 else 0.0), a_))
+                    else:
+                        r = guarded(ch.set_non_negative, i, int(not shadow_n[i]))
+            elif op == "set_boundaries":
                 wdt = scale * 10.0 ** rng.uniform(-2, 1)
                 lo_i = cur - wdt * rng.uniform(0.05, 0.95)
                 if rng.random() < 0.3 or shadow_n[i]:
@@ -331,7 +413,7 @@ def run_job(job, rec):
         G.lo[:], G.hi[:] = lo, hi
         over = 10.0 ** rng.uniform(0, 6)  # proposal scale in units of the box width
         ctx = {"run": c, "kind": kind, "d": d, "lower": lo, "upper": hi, "overshoot_factor": over}
-        W.ctx = G.ctx = ctx
+        W.ctx = G.ctx = tm.ctx = ctx
         rec.context = ctx
         start = lo + w * rng.uniform(0.05, 0.95, size=d)
         try:
